@@ -89,6 +89,36 @@ func Make(shape string, seed int64, n int) []byte {
 			}
 			b = append(b, seg...)
 			filler()
+		case "look":
+			// a match finder with look-ahead: at position P a short match (5 bytes, 1000 bytes back) and at P+2 a long one (40 bytes)
+			// whose distance is exactly v. A 128-byte key repeated just before both places resets the acceleration of scanners that
+			// skip ahead in incompressible data, so that both positions are really visited.
+			key := rb(128)
+			a := rb(40)
+			head := []byte{0x11, 0x22}
+			const ax = 264
+			pp := ax + v - 2
+			yy := pp - 1000
+			if yy-8-128 < ax+len(a)+8 {
+				b = b[:0]
+				break
+			}
+			d := rb(pp + 2 + len(a) + 100)
+			for k, at := range []int{ax - 2, ax - 1, yy - 1, pp - 1} {
+				d[at] = byte(0x77 + k)
+			}
+			copy(d[0:], key)
+			copy(d[128:], key)
+			copy(d[ax:], a)
+			copy(d[yy-8-128:], key)
+			copy(d[yy:], head)
+			copy(d[yy+2:], a[:3])
+			d[yy+5] = ^a[3]
+			copy(d[pp-12-128:], key)
+			copy(d[pp:], head)
+			copy(d[pp+2:], a)
+			b = append(b, d...)
+			filler()
 		case "contlead":
 			// valid wide UTF-8 text behind v stray continuation bytes: a block cut inside a character starts with up to three of
 			// them, v >= 4 is what a damaged or mis-cut stream looks like
